@@ -36,7 +36,7 @@ def run(ctx):
     ctx.delegate("C03", ["C03.stop"], "C14.counter",
                  "the tracked position the seek decision compares with is the real one: it advances by exactly the bytes of each "
                  "record read", floor=3)
-    ctx.delegate("C15", ["C15.R0", "C15.R2", "C15.R1"], "C14.history",
+    ctx.delegate("C15", ["C15.R0", "C15.R2", "C15.R1", "C15.R6"], "C14.history",
                  "iteration agrees with random access also when they are interleaved on one reader: random access starts with an "
                  "absolute seek and leaves the source where a new iterator assumes it; a fresh iterator's believed position is the real one",
                  floor=3)
